@@ -675,7 +675,44 @@ func init() {
 				skipL, nL = countSeqRange(len(lp), 4, 6)
 			}
 			viaN := countStrings(len(pool), 2)
+			nd := int64(len(randomDraws))
 			return []fw.Space{
+				{Name: "random-source-boundaries", N: nd * nd * nd * 2, Run: func(c *fw.Ctx, i int64) {
+					safe := i%2 == 1
+					j := i / 2
+					script := []int64{randomDraws[j%nd], randomDraws[j/nd%nd], randomDraws[j/nd/nd]}
+					fc := functions.NewDefaultFunctionCollection()
+					used := withScriptedRandom(script, func() {
+						for k, name := range []string{"Rnd", "Random", "rnd", "RANDOM"} {
+							f := fc.FindByName(name)
+							if f == nil {
+								c.Violation("function-missing:"+name, "default function %s not found", name)
+								return
+							}
+							var r *variants.Variant
+							var err error
+							pv := fw.Try(func() { r, err = f.Calculate([]*variants.Variant{}, opsManager(safe)) })
+							c.Eval(1)
+							if pv != nil || err != nil || r == nil {
+								c.Violation("Rnd:fails", "%s() call %d with the generator answering %v: result %s error %v panic %v", name, k+1, script, variantStr(r), err, pv)
+								return
+							}
+							if msg := c08Reference("Rnd", safe, nil, time.Now()).check(r); msg != "" {
+								c.Violation("Rnd:out-of-range", "%s() call %d with the process-wide generator answering the 63-bit draws %v (then mid-range draws) %s", name, k+1, script, msg)
+								return
+							}
+						}
+					})
+					if used == 0 {
+						c.Outcome("random-source-seam-unused")
+					} else {
+						c.Outcome("random-source-scripted")
+						c.Nontrivial()
+					}
+				}, Repr: func(i int64) string {
+					j := i / 2
+					return fmt.Sprintf("Rnd()/Random() x4 with math/rand's global generator scripted to draw %v", []int64{randomDraws[j%nd], randomDraws[j/nd%nd], randomDraws[j/nd/nd]})
+				}},
 				{Name: "spelling", N: nf * 4, Run: c08Spelling, Repr: func(i int64) string { return fmt.Sprintf("lookup of %s in spelling %d", c08Names[int(i)/4], i%4) }},
 				{Name: "direct-short", N: short * nf * 2, Run: func(c *fw.Ctx, i int64) {
 					c08Direct(c, pool, seqByIndex(len(pool), i/(nf*2)), int(i/2%nf), i%2 == 1)
